@@ -362,11 +362,12 @@ PriorSet == {PriorCat[p] : p \in PriorIds}
 BinSet == {IF b = 0 THEN <<>> ELSE BinCat[b] : b \in BinIds}
 FPrecSet == {IF p = 0 THEN <<>> ELSE [m \in 1..NFold |-> [c \in 1..NCh |-> FoldPrecCat[p][m][c]]] : p \in FoldPrecIds}
 
+FirstPrior == PriorCat[CHOOSE p \in PriorIds : \A q \in PriorIds : p <= q]
 \* option combinations that mean something for the method (others would only duplicate vectors)
 OptOk(method, rm, prec, prior) ==
   /\ (method \in {"correlation", "poisson", "poisson_cv"} => rm = FALSE)
   /\ (method \in {"mahalanobis", "crossnobis"} \/ prec = <<>>)
-  /\ (method \in {"poisson", "poisson_cv"} \/ prior = PriorCat[1])
+  /\ (method \in {"poisson", "poisson_cv"} \/ prior = FirstPrior)
 
 \* without a condition descriptor two datasets of a list can only be aligned on unique labels
 ListNoDescOk(lab, lab2) ==
